@@ -17,7 +17,7 @@ use std::future::Future;
 use std::pin::Pin;
 use std::task::{Context, Poll};
 
-type PL = parking_lot::RawMutex;
+type PL = harness::PLD;
 type DynFut = Pin<Box<dyn Future<Output = u8>>>;
 
 thread_local! {
